@@ -2,12 +2,14 @@ package l2
 
 import (
 	"fmt"
+	"math/big"
 	"math/rand"
 	"os"
 	"sync"
 	"sync/atomic"
 	"time"
 
+	"github.com/btcsuite/btcd/blockchain"
 	"github.com/btcsuite/btcd/wire/v2"
 	"github.com/lightninglabs/neutrino"
 	"github.com/lightninglabs/neutrino/banman"
@@ -129,6 +131,18 @@ func PlanFromSeed(seed int64, k int) Plan {
 		p.ChainLen = 80
 		p.Checkpoints = nil
 		p.Peers = []PeerPlan{{Kind: BHonest}, {Kind: BLighter, At: 77}}
+		p.FirstPeer = 0
+		p.Extend, p.ReorgDepth = 0, 0
+	}
+	if k == 3 {
+		// A fixed scenario (listed finding "fork deeper than one headers
+		// message"): the client's first peer serves a valid fork that leaves
+		// the honest chain at height 40 and is one block shorter; the honest
+		// peer's 2000-header answer does not reach beyond it.
+		p.ChainLen = 2100
+		p.Checkpoints = nil
+		p.Preset = chaingen.PresetNoRetarget
+		p.Peers = []PeerPlan{{Kind: BLighter, At: 40}, {Kind: BHonest}}
 		p.FirstPeer = 0
 		p.Extend, p.ReorgDepth = 0, 0
 	}
@@ -547,3 +561,109 @@ func (p Plan) Describe() string {
 }
 
 var _ = ref.RuleLink
+
+// LoneLiarBelieved recognises one known root cause (KNOWN_FINDINGS.json: "a
+// lone liar is believed") from observations only: the FIRST committed filter
+// header that differs from the ground truth belongs to a block about which a
+// liar sent its false value at a moment when no honest peer had yet completed
+// a handshake with the client, so nobody could contradict it. It returns ""
+// when the committed filter headers are true or when an honest peer was
+// already connected (then the client had the means to find out).
+func (b *Built) LoneLiarBelieved() string {
+	w := b.W
+	chain, err := ReadChain(w.Svc.BlockHeaders)
+	if err != nil {
+		return ""
+	}
+	fc, err := ReadFilterChain(w.Svc.RegFilterHeaders)
+	if err != nil || len(fc) > len(chain) {
+		return ""
+	}
+	firstHonest := int64(-1)
+	honest := map[string]bool{}
+	for _, hp := range b.Honest {
+		honest[hp.Addr] = true
+	}
+	for _, e := range w.Log.Snapshot() {
+		if e.Dir == "ev" && e.Cmd == "handshake" && honest[e.Peer] {
+			firstHonest = e.Seq
+			break
+		}
+	}
+	for h := 1; h < len(fc); h++ {
+		n := w.G.Lookup(chain[h].BlockHash())
+		if n == nil {
+			return ""
+		}
+		if fc[h] == n.FilterHeader {
+			continue
+		}
+		for addr, l := range w.Liars {
+			if s, ok := l.FirstTold(n.Hash); ok && (firstHonest < 0 || s < firstHonest) {
+				return fmt.Sprintf("the committed filter header at height %d is false: liar %s sent its false value at log position %d, before any honest peer had completed a handshake (first at %d)", h, addr, s, firstHonest)
+			}
+		}
+		return ""
+	}
+	return ""
+}
+
+// ForkDeeperThanOneHeadersMessage recognises a second known root cause from
+// the stores and the generated tree: the client sits on a valid fork that
+// has less work than the honest chain, but the honest peer's answer to the
+// client's getheaders (it starts at the first locator entry the honest chain
+// contains and is capped at 2000 headers) does not reach the honest tip, and
+// the part of the honest branch inside that one message has no more work
+// than the client's branch. The client judges a reorganisation per headers
+// message, so it rejects the message and drops the honest peer, for good.
+func (b *Built) ForkDeeperThanOneHeadersMessage() string {
+	w := b.W
+	chain, err := ReadChain(w.Svc.BlockHeaders)
+	if err != nil || len(chain) < 2 {
+		return ""
+	}
+	honest := b.Tip().Path()
+	f := 0
+	for f+1 < len(chain) && f+1 < len(honest) && chain[f+1].BlockHash() == honest[f+1].Hash {
+		f++
+	}
+	tip := len(chain) - 1
+	if f == tip {
+		return "" // on the honest chain
+	}
+	// The locator the client builds (headerfs.blockLocatorFromHash).
+	m, n, dec, h := -1, 1, 1, tip
+	for h > 0 && n < wire.MaxBlockLocatorsPerMsg {
+		if n > 10 {
+			dec *= 2
+		}
+		if dec > h {
+			h = 0
+		} else {
+			h -= dec
+		}
+		n++
+		if h <= f {
+			m = h
+			break
+		}
+	}
+	if m < 0 {
+		m = 0
+	}
+	last := m + wire.MaxBlockHeadersPerMsg
+	if last >= len(honest)-1 {
+		return "" // the honest answer reaches the honest tip
+	}
+	known, offered := big.NewInt(0), big.NewInt(0)
+	for i := f + 1; i <= tip; i++ {
+		known.Add(known, blockchain.CalcWork(chain[i].Bits))
+	}
+	for i := f + 1; i <= last; i++ {
+		offered.Add(offered, blockchain.CalcWork(honest[i].Hdr.Bits))
+	}
+	if offered.Cmp(known) > 0 {
+		return ""
+	}
+	return fmt.Sprintf("the client is on a fork from height %d up to height %d; the honest chain (tip %d) has more work, but the honest peer's headers message for the client's locator covers heights %d..%d only and that part of the honest branch has no more work than the client's branch", f, tip, len(honest)-1, m+1, last)
+}
